@@ -27,18 +27,23 @@ for g in ("before", "on"):
     SLOTS.append((g, "decorator", "dec", "d" + g[0]))
     # one callback name attached both as `before` and as `on` of the transition
     SLOTS.append((g, "inline", "sm", "shr"))
-VALUES = (None, 0, "", [], [1, 2], (1,), {}, "x")
+VALUES = (None, 0, "", [], [1, 2], (1,), {}, "x", ValueError("rv"))   # a *returned* exception object
 KINDS = (("external", "e1"), ("external", "e2"), ("self", "e1"), ("internal", "e1"),
          ("internal", "e2"), ("none", "e1"))
 CFGS = (("sync", Cfg("sync", True, True, "direct")), ("sync-nonrtc", Cfg("sync", False, True, "direct")),
         ("async", Cfg("async", True, True, "facade")), ("async-inloop", Cfg("async", True, True, "inloop")))
 
 
-def make_spec(pop, kind, asyn):
+LATE = {"on_transition": "late-on", "before_e1": "late-b1", "on_e2": "late-o2"}
+
+
+def make_spec(pop, kind, asyn, late=False):
     dst = "b" if kind == "external" else "a"
     fl = "a" if asyn else ""
     inl = {"before": [], "on": []}
     provided = []
+    if late:
+        provided += [("L9", nm, fl) for nm in LATE]
     for si in pop:
         (g, way, p, nm) = SLOTS[si]
         if way == "decorator":
@@ -61,7 +66,7 @@ def make_spec(pop, kind, asyn):
     trans = [focal, T("a", "b", ("tob",)), T("b", "a", ("back",)),
              T("a", "a", ("n1",), on=("nst",)), T("b", "b", ("n1",), on=("nst",))]
     return M(states=(S("a", initial=True), S("b")), trans=tuple(trans),
-             provided=tuple(provided), listeners=("L1",))
+             provided=tuple(provided), listeners=("L1", "L9") if late else ("L1",))
 
 
 def cid_of(slot):
@@ -116,7 +121,25 @@ def run_population(res, pop, tier):
                     # followed by an allowed one; the outer call fails, and the *next* event
                     # must return its own result, not the stranded one's
                     passes += [("reject", v) for v in combos[:2]]
+            if len(pop) <= 1 and kind in ("self", "internal"):
+                # fourth pass: the same transition fires for e1 and e2, then a listener is
+                # attached, then both fire again - its before/on results join the event result
+                # from then on (per-event conventions only for their event)
+                passes += [("late", v) for v in combos]
             for vi, (nested, vals) in enumerate(passes):
+                if nested == "late":
+                    msg, p = run_late(built, pop, kind, cfg, dict(zip(cids, vals)), vi)
+                    res.stats["evaluations"] += 1
+                    res.stats["transitions"] += p.steps
+                    res.hist["late-listener"] += 1
+                    if msg:
+                        res.violation({"category": "late-listener:" + _cat(msg), "kind": kind,
+                                       "cfg": cname},
+                                      {"pop_idx": list(pop), "pop": [list(SLOTS[i]) for i in pop],
+                                       "kind": kind, "event": ev, "cfg": cname,
+                                       "values": [repr(v) for v in vals], "style": "send",
+                                       "nested": "late", "vi": vi}, msg)
+                    continue
                 rets = dict(zip(cids, vals))
                 rules = {(("sm", "ia"), ev): (("n1",), 1)} if nested is True else \
                     {(("sm", "ia"), ev): (("zz", "n1"), 1)} if nested == "reject" else {}
@@ -152,6 +175,38 @@ def run_population(res, pop, tier):
                                         "values": [repr(v) for v in vals],
                                         "result": repr(p.last[1].value)})
             res.stats["states"] += 1
+
+
+def run_late(built, pop, kind, cfg, rets, vi):
+    from .c12 import listener_class
+    asyn = cfg.engine == "async"
+    m1 = make_spec(pop, kind, asyn, late=True)
+    rets = dict(rets)
+    rets.update({("L9", nm): v for nm, v in LATE.items()})
+    p = Pair(built, cfg, plan=Plan(rets=rets, rules={}))
+    msg = p.construct()
+    gv = {"gok": True, "vok": True}
+    order = ("e1", "e2") if vi % 2 else ("e2", "e1")
+    for k, e in enumerate(order):
+        if msg is None:
+            msg = p.send(e, gv, tag=f"pre{k}")
+            if msg is None:
+                msg = check_result(p.last[0].groups, p.last[1].value)
+    if msg:
+        return "before attaching: " + msg, p
+    lsn = listener_class("L9", {nm: {"L9"} for nm in LATE}, asyn)()
+    p.impl.sm.add_listener(lsn)
+    p.ref.m = m1
+    p.ref.trans_of = {}
+    for ti, t in enumerate(m1.trans):
+        p.ref.trans_of.setdefault(t.src, []).append((ti, t))
+    for k, e in enumerate(order + order[:1]):
+        msg = p.send(e, gv, tag=f"post{k}")
+        if msg is None:
+            msg = check_result(p.last[0].groups, p.last[1].value)
+        if msg:
+            return f"after attaching a listener (event {e}): {msg}", p
+    return None, p
 
 
 def _cat(msg):
@@ -217,6 +272,8 @@ def replay(sc):
     vals = [eval(v) for v in sc["values"]]  # noqa: S307
     rets = dict(zip([cid_of(SLOTS[i]) for i in pop], vals))
     nested = sc.get("nested")
+    if nested == "late":
+        return run_late(built, pop, kind, cfg, rets, sc["vi"])[0]
     rules = {(("sm", "ia"), ev): (("n1",), 1)} if nested is True else \
         {(("sm", "ia"), ev): (("zz", "n1"), 1)} if nested == "reject" else {}
     if nested == "reject":
